@@ -1320,6 +1320,9 @@ class LogixDriver(CIPDriver):
 
             tag_info = self._get_tag_info(base, attrs)
 
+            if bit is not None and tag_info["tag_type"] != "atomic":
+                raise RequestError(f"Tag {tag} is a structure, it has no member or bit {bit}")
+
             if bit is not None and tag_info["tag_type"] == "atomic":
                 _size = getattr(DataTypes.get(tag_info["data_type"]), "size", 0)
                 if _size and bit >= _size * 8:
